@@ -254,6 +254,7 @@ func main() {
 	}
 	rng := hx.NewRNG(cfg.Seed)
 
+	concOnly := cfg.Extra == "conconly"
 	// 1. exhaustive histories of length L over 3 IDs (all shorter ones are prefixes)
 	L := 6
 	if cfg.Thorough() {
@@ -264,7 +265,7 @@ func main() {
 	}
 	alpha := alphabet(3)
 	idx := make([]int, L)
-	for {
+	for !concOnly {
 		ops := make([]string, L)
 		for i, k := range idx {
 			ops[i] = alpha[k]
@@ -287,6 +288,9 @@ func main() {
 	nr, rl := 300, 40
 	if cfg.Thorough() {
 		nr, rl = 3000, 300
+	}
+	if concOnly {
+		nr = 0
 	}
 	for k := 0; k < nr; k++ {
 		r := rng.Fork()
